@@ -34,7 +34,9 @@ util.FnExt; "one rule per construct, reject what is not understood"):
              `self._constraints.get(key, [])` -> pyConsRelU2; inside `if self._constraints.get(key, []):` (same `key`, a
              parameter that is not re-assigned) `self._constraints[key]` -> pyConsRelU2 (the key is present),
              `self._constraints[key].pop()` as a statement -> pyConsPopLastU2, `self._constraints.pop(key)` as a statement ->
-             pyConsDelKeyU2; elsewhere these are rejected
+             pyConsDelKeyU2 (`del self._constraints[key]` is read as that statement); elsewhere these are rejected;
+             registry `normalize=("alias",)`: `X = self._constraints.get(key); if X: … X …` is first written back as the
+             lookups above (util.expand_guarded_alias)
 """
 import ast
 from .. import translate as T
@@ -294,6 +296,16 @@ class FnExt(U.FnExt):
                 raise Untranslatable("D[k] *= something that is not a float literal", s)
             return "let %s : Sym.CoefItems R := (pyCoefSetItem %s %s (pyCoefMulU2 (pyCoefGetItemU2 %s %s) %s));\n%s%s" % (
                 d, d, key, d, key, c, pad, self.block(rest, env, k, ind, flow))
+        # del self._constraints[key]  ==  self._constraints.pop(key) as a statement (a builtin dict: both remove the entry,
+        # both raise KeyError when it is absent; the popped value is discarded)
+        if isinstance(s, ast.Delete) and len(s.targets) == 1 and isinstance(s.targets[0], ast.Subscript) \
+                and self.cons_attr(s.targets[0].value, env) and isinstance(s.targets[0].slice, ast.Name):
+            t0 = s.targets[0]
+            call = ast.Expr(value=ast.Call(func=ast.Attribute(value=t0.value, attr="pop", ctx=ast.Load()),
+                                           args=[ast.Name(id=t0.slice.id, ctx=ast.Load())], keywords=[]))
+            ast.copy_location(call, s)
+            ast.fix_missing_locations(call)
+            return self.stmt([call] + list(rest), env, k, ind, flow)
         # self._constraints[key].pop()  /  self._constraints.pop(key)   as statements
         if isinstance(s, ast.Expr) and isinstance(s.value, ast.Call) and isinstance(s.value.func, ast.Attribute) \
                 and s.value.func.attr == "pop" and not s.value.keywords:
@@ -390,7 +402,7 @@ REGISTRY = [
          unit="TempRange", group="TempRange", props=["C15"], monadic=True, set_order=True, join_points=True,
          params=[("model", "Poly"), ("start_flip_prob", "Rat"), ("end_flip_prob", "Rat"), ("spin", "Bool")],
          defaults={"start_flip_prob": "0.5", "end_flip_prob": "0.01", "spin": "False"},
-         callees={"pubo_to_puso": ("qubovert.utils", "U2PolyFn")}, returns="U2TempPair",
+         callees={"pubo_to_puso": ("qubovert.utils", "U2PolyFn")}, returns="U2TempPair", normalize=("setcomp", "helper"),
          extra_theorems=["tempRange_raw_u2", "tempRange_obj_u2"],
          not_translated=["`pubo_to_puso` is an opaque parameter of the generated function (any function dict -> dict that may "
                          "raise; instantiated with the model's `puboToPusoV` in the bridge theorems; the conversion itself is "
@@ -427,6 +439,7 @@ REGISTRY += [
 REGISTRY += [
     dict(file="qubovert/_pcbo.py", func="PCBO._pop_constraint", lean="pcbo_pop_constraint_u2", unit="ConsLoops", group="ConsLoops",
          props=["C02", "C03", "C06"], params=[("self", "Cons"), ("key", "U2Rel")], defaults={}, inplace="self", returns="Cons",
+         normalize=("alias",),
          extra_theorems=["pop_chain_u2"],
          not_translated=["`self` is `self._constraints`, read as ONE list of (relation, PUBO) pairs in append order (the dict "
                          "of per-relation lists is its grouping: pyConsRelU2 / pyConsPopLastU2 / pyConsDelKeyU2); "
